@@ -8,8 +8,14 @@ RULE = ("random indexed collections built by the real IndexedInstrumentsBuilder:
         "AccountEventIndexer::order_request (open/cancel), order_key, asset_balance, trade, Indexer::index (= account_event) on random nested events of all five kinds "
         "(snapshots with 0-3 balances / 0-3 instruments x 0-2 orders, all order states and API error variants; keys own/foreign/unknown at 0-40%), and requests through a real "
         "ExecutionManager::run with a recording stub ExecutionClient on a paused tokio runtime (what the client received, which indices the echoed response was attributed to, "
-        "panic on a non-configured key); 8% of cases then overwrite 1-3 keys of the built collection through its derived Deserialize (duplicate / shifted / out-of-range keys, outside Indexed: model vs code only) and sweep again. Thorough additionally enumerates all 9 261 collections over 3 exchanges x (0,1,2 instruments named 1|2 over assets {1,2} in either "
-        "base/quote order), full find_* sweep on 4 links and every (exchange index, instrument index) order_request on 3 links. Distinct by SHA-1 of the op lines; "
+        "panic on a non-configured key); then 3/4 link selections per case for the END-TO-END ROUTE op: a fresh real ExecutionBuilder over the collection with add_live::<RStub<e>> (recording stub client "
+        "whose EXCHANGE is e) for a generated SUBSET of the collection's exchanges in shuffled call order - every other selection leaves the exchange with ExchangeIndex(0) link-less while a later "
+        "one is linked, the others link each exchange with 60%; 8% are spoiled by a repeated / absent exchange (builder must return Err) - then build() + init() on a paused current-thread tokio "
+        "runtime and one open/cancel request per exchange index 0..len (own, link-less, out of range; 70% an instrument of that exchange, else any index 0..len) sent through "
+        "execution_txs.find(&ExchangeIndex(x)).send(..) as Engine::send_request does; observed: the slots of the MultiExchangeTxMap, lookup ok/err, every call ANY client received tagged with the "
+        "receiving client (exchange id, instrument name_exchange, cid, payload), which manager task panicked, the engine key of the echoed answer on the merged account channel; 8% of cases then overwrite 1-3 keys of the built collection through its derived Deserialize (duplicate / shifted / out-of-range keys, outside Indexed: model vs code only) and sweep again. Thorough additionally enumerates all 9 261 collections over 3 exchanges x (0,1,2 instruments named 1|2 over assets {1,2} in either "
+        "base/quote order), full find_* sweep on 4 links and every (exchange index, instrument index) order_request on 3 links, plus route ops with the first exchange link-less and the later ones added "
+        "in reverse order (every exchange index x every instrument index), all linked in reverse order and the middle one link-less (every exchange index x {own instrument, out of range}). Distinct by SHA-1 of the op lines; "
         "non-trivial when the implementation's observation blocks differ at least once")
 ASSUMPTIONS = [
     "the indexed collection has key = position for exchanges, assets and instruments (what IndexedInstrumentsBuilder::build produces; property C11) - hypothesis Indexed",
@@ -20,13 +26,20 @@ ASSUMPTIONS = [
     "(the harness checks on every observation that the real code carried them over unchanged)",
     "ExecutionManager::run is modelled only at its two translation sites (order_request before the client call, order_key on the response); scheduling, timeouts and the "
     "response channel are C03/C07",
+    "routing: a transmitter is identified with the ExecutionManager owning its receiver (the exchange its client was constructed for + its ExecutionInstrumentMap); channel delivery "
+    "(FIFO, receiver alive) is C03; the builder's FnvHashMap<ExchangeId, _> is an association list (insert / remove / lookup by key, iteration order never observed) and "
+    "MultiExchangeTxMap's FnvIndexMap is built by in-place upsert in iteration order; hypothesis WFX for the routing theorems: key = position and pairwise distinct exchange ids "
+    "(no condition on names); ExecutionBuilder::add_mock is not driven (it funnels into the same add_execution as add_live and is driven by the C11 check)",
 ]
 SOURCE_FILES = ["barter-execution/src/map.rs", "barter-execution/src/indexer.rs", "barter/src/execution/manager.rs",
-                "barter/src/execution/builder.rs", "barter-instrument/src/index/mod.rs"]
+                "barter/src/execution/builder.rs", "barter/src/engine/execution_tx.rs", "barter/src/engine/action/send_requests.rs",
+                "barter-instrument/src/index/mod.rs"]
 CLAIM = True
 TECHNIQUE = ("Lean 4: refinement of the per-exchange tables built by generate_execution_instrument_map (filter_map + collect into IndexMap/HashMap, modelled as upsert folds) to "
              "specification functions over the global collection, for arbitrary collections; structural refinement of every AccountEventIndexer function to a key-replacing "
-             "traversal; correspondence with the real map, indexer and ExecutionManager")
+             "traversal; the transmitter table of ExecutionBuilder::build (fold with removal + IndexMap collect) shown equal to 'one slot per exchange in index order, own link or empty' "
+             "for any add order, composed with positional find and the manager translation into a refinement of the routing specification; correspondence with the real map, indexer, "
+             "ExecutionManager and ExecutionBuilder + MultiExchangeTxMap::find")
 
 
 def signature(ops, k, key, impl_line, spec_line):
@@ -42,10 +55,17 @@ LEVEL_TEXT = ("Proof. lean/BarterModel/Props/C04.lean proves for EVERY indexed c
               "addresses the client with the exchange id of ex and the name_exchange of exactly the requested instrument with cid/state untouched, and sends nothing otherwise "
               "(request_addressed, request_refines_spec); account_event maps every snapshot/balance/order/cancel-response/trade, at any nesting depth and list length, to the "
               "indices its names denote on ex or rejects it (account_event_refines_spec, trade_applied, balance_applied, order_key_applied); an echoed client response is "
-              "attributed to the original engine indices (manager_round_trip); a link exists exactly for the exchanges of the collection (link_exists_iff). All full strength, "
+              "attributed to the original engine indices (manager_round_trip); a link exists exactly for the exchanges of the collection (link_exists_iff). END TO END (model of "
+              "ExecutionBuilder::add_execution/build, MultiExchangeTxMap::find, send_request, manager), for every collection with key = position and distinct exchange ids, every subset of its "
+              "exchanges with an execution added in ANY call order: the builder succeeds and never trips its assert (build_succeeds, build_never_panics); the table has one slot per exchange "
+              "in exchange-index order and find(x) yields exactly the own manager of the exchange at index x iff that exchange was added (tx_table); a request for instrument i of exchange "
+              "index x reaches exactly the client of the exchange at x, addressed with that exchange's id and i's name_exchange (route_reaches_own_client); with no link at x or x out of range "
+              "the lookup errs and no client is called (route_no_link_fails); an instrument of another exchange is refused by the own manager and no client is called "
+              "(route_foreign_instrument_rejected); conversely whatever any client receives was addressed to it (route_delivered_sound); the echoed answer comes back under the request's own "
+              "engine key (route_round_trip); routing equals the specification function the oracle runs (route_refines_spec). All full strength, "
               "no size bounds. The unit tests only cover hand-picked single-exchange maps.")
 LEVEL_NOTE = ("Trusted: Lean kernel; axioms propext/Classical.choice/Quot.sound; the hand-written model (Model/ExecMap.lean) tied to the code by sampled correspondence against the real "
-              "generate_execution_instrument_map, ExecutionInstrumentMap::find_*, AccountEventIndexer and ExecutionManager::run (300 quick / 4 000 random + 9 261 exhaustive small "
+              "generate_execution_instrument_map, ExecutionInstrumentMap::find_*, AccountEventIndexer, ExecutionManager::run and ExecutionBuilder::add_live/build/init + MultiExchangeTxMap::find (300 quick / 4 000 random + 9 261 exhaustive small "
               "collections thorough); harness and drivers. Hypothesis WF (key = position, distinct exchange ids, per-exchange injective name_exchange) is decidable, holds for "
               "every builder output with per-exchange unique exchange names, and is shown satisfiable and necessary by examples. The index builder itself is C11; the manager's "
               "async machinery is C03/C07.")
